@@ -300,6 +300,7 @@ func RunBMC(prog *ssa.Program, sizes typesSizes, fn *ssa.Function, job *BMCJob) 
 		m := newMachine(w, f, s, r, 500000)
 		m.constCache = constCache
 		m.prefix = prefix
+		w.CtxCanceled = m.newModelError("context canceled") // (before object tracking: not a heap cell)
 		m.trackObjs = true
 		m.inSetup = true
 		sys := &bmcSys{job: job, f: f, s: s, w: w, prog: prog, sizes: sizes, setup: m, r: r, res: res, verbose: job.Verbose,
